@@ -56,15 +56,17 @@ import (
 type c18XK int
 
 const (
-	xSym   c18XK = iota // a fixed symbol
-	xQSym               // a quoted symbol 'name (datum)
-	xInt                // an integer
-	xList               // a list without the quoted flag
-	xQList              // a list carrying the quoted flag: [..], lisp.QExpr, what `list` returns
-	xArg                // the macro's argument form EXPR (parsed at the call site: keeps its position)
-	xGen                // generated symbol number i: one symbol per expansion, bound by the expansion
-	xFresh              // a generated symbol nothing binds
-	xSlot               // the slot: the failing node when the macro's FLAG argument is 1, the slot's benign node when it is 0
+	xSym     c18XK = iota // a fixed symbol
+	xQSym                 // a quoted symbol 'name (datum)
+	xInt                  // an integer
+	xList                 // a list without the quoted flag
+	xQList                // a list carrying the quoted flag: [..], lisp.QExpr, what `list` returns
+	xArg                  // the macro's argument form EXPR (parsed at the call site: keeps its position)
+	xGen                  // generated symbol number i: one symbol per expansion, bound by the expansion
+	xFresh                // a generated symbol nothing binds
+	xSlot                 // the slot: the failing node when the macro's FLAG argument is 1, the slot's benign node when it is 0
+	xShared               // a generated symbol nothing binds, made ONCE and held in a global: every expansion splices the same value in
+	xLitTail              // a failing call that is the tail / a slice of a quoted literal written in the macro's body (s: car | cons | error)
 )
 
 type c18XN struct {
@@ -230,6 +232,10 @@ var c18XCore = map[string]bool{"let": true, "let*": true, "flet": true, "labels"
 
 // c18EX describes one program of the family.
 type c18EX struct {
+	// special names one of two sub-classes whose programs make a position-less value
+	// reach an expansion by a route of its own (see c18ExpansionProgram); their
+	// findings are keyed by the sub-class alone
+	special                                   string
 	slot, spell, builder, nest, definer, fail string
 	uses                                      int
 	tree, benign, failing                     *c18XN
@@ -248,6 +254,14 @@ func (x *c18EX) class() string {
 }
 
 func (x *c18EX) suffix() string { return ":expansion=" + x.class() }
+
+// key names the finding of comparison k for a program of the family.
+func (x *c18EX) key(k string) string {
+	if x.special != "" {
+		return "macro-built-form-not-at-call-site:" + x.special
+	}
+	return k + x.suffix()
+}
 
 // ---- the failing node ------------------------------------------------------------
 
@@ -296,6 +310,30 @@ func (g *c18XLisp) built(n *c18XN) *sx.N {
 		return sx.Y(fmt.Sprintf("g%d", n.i))
 	case xFresh:
 		return sx.Call("gensym")
+	case xShared:
+		if n.s == "through-function" {
+			return sx.Call("xp-shared-symbol")
+		}
+		return sx.Y("xp-shared")
+	case xLitTail:
+		// the header cdr / rest / slice return is new and has no position; the elements
+		// are the literal's (written in the macro's body, they keep that position)
+		var call []*sx.N
+		switch n.s {
+		case "cons":
+			call = []*sx.N{sx.Y("cons"), sx.I(1)}
+		case "error":
+			call = []*sx.N{sx.Y("error"), sx.QY("xp-boom"), sx.I(1)}
+		default:
+			call = []*sx.N{sx.Y("car"), sx.I(5)}
+		}
+		switch g.r.Intn(3) {
+		case 0:
+			return sx.Call("cdr", sx.Q(sx.L(append([]*sx.N{sx.Y("pad")}, call...)...)))
+		case 1:
+			return sx.Call("rest", sx.Q(sx.L(append([]*sx.N{sx.I(0)}, call...)...)))
+		}
+		return sx.Call("slice", sx.QY("list"), sx.Q(sx.L(append([]*sx.N{sx.Y("pad"), sx.Y("pad")}, call...)...)), sx.I(2), sx.I(int64(2+len(call))))
 	case xSlot:
 		return sx.Call("if", sx.Call("=", sx.Y(g.flag), sx.I(0)), g.built(g.x.benign), g.built(g.x.failing))
 	case xList, xQList:
@@ -332,7 +370,7 @@ func (g *c18XLisp) tmpl(n *c18XN) *sx.N {
 		return sx.QY(n.s)
 	case xInt:
 		return sx.I(n.i)
-	case xArg, xGen, xFresh, xSlot:
+	case xArg, xGen, xFresh, xSlot, xShared, xLitTail:
 		return unq(g.built(n))
 	}
 	if g.entryBuilt && n.entry && n.has(xSlot) {
@@ -489,6 +527,11 @@ func c18ExpansionCases(tier string) int { return pick(tier, 1800, 60000) }
 func c18ExpansionProgram(w *fw.W, idx, k int) ([]*sx.N, string, map[string]bool, *c18EX) {
 	r := w.RNG(idx, "expansion")
 	x := &c18EX{}
+	// every twelfth program belongs to one of the two special sub-classes
+	if k%12 == 11 {
+		x.special = []string{"root-is-tail-of-quoted-literal", "value-shared-with-earlier-expansion"}[(k/12)%2]
+	}
+	k -= (k + 1) / 12
 	// slot x spelling x builder are enumerated, the rest is sampled
 	slot := c18XSlots[k%len(c18XSlots)]
 	sp := c18XSpells[(k/len(c18XSlots))%len(c18XSpells)]
@@ -498,6 +541,24 @@ func c18ExpansionProgram(w *fw.W, idx, k int) ([]*sx.N, string, map[string]bool,
 	}
 	if x.builder == "template-entry-built" && !slot.entryB {
 		x.builder = "template"
+	}
+	switch x.special {
+	case "root-is-tail-of-quoted-literal":
+		// (defmacro m (..) (cdr '(pad car 5))): the expansion's root is a list header
+		// minted at expansion time over the elements of a literal
+		slot = c18XSlots[len(c18XSlots)-1]
+		if x.builder == "host" || x.builder == "template-entry-built" {
+			x.builder = "template"
+		}
+	case "value-shared-with-earlier-expansion":
+		// the generated symbol is made once, before the macro is defined, and every
+		// expansion splices that one value into the slot
+		if x.builder == "host" {
+			x.builder = "template"
+		}
+		if x.builder == "built" && !slot.built {
+			x.builder = "template"
+		}
 	}
 	x.host = x.builder == "host"
 	x.slot = slot.name
@@ -535,6 +596,14 @@ func c18ExpansionProgram(w *fw.W, idx, k int) ([]*sx.N, string, map[string]bool,
 		}
 	}
 	x.failing = c18XFailing(x.fail)
+	switch x.special {
+	case "root-is-tail-of-quoted-literal":
+		x.fail = fw.Pick(r, []string{"type", "arity", "user"})
+		x.failing = &c18XN{k: xLitTail, s: map[string]string{"type": "car", "arity": "cons", "user": "error"}[x.fail]}
+	case "value-shared-with-earlier-expansion":
+		x.fail = "unbound"
+		x.failing = &c18XN{k: xShared, s: fw.Pick(r, []string{"global", "through-function"})}
+	}
 	if !x.host {
 		if r.Chance(1, 4) {
 			x.definer = "macrolet"
@@ -549,6 +618,10 @@ func c18ExpansionProgram(w *fw.W, idx, k int) ([]*sx.N, string, map[string]bool,
 	var forms []*sx.N
 	forms = append(forms, sx.Call("defun", sx.Y("wrap"), sx.L(sx.Y("x")), sx.Call("list", sx.Y("x"))))
 	forms = append(forms, sx.Call("defun", sx.Y("xp-handler"), sx.L(sx.Y("c"), sx.Y("&rest"), sx.Y("r")), sx.I(0)))
+	if x.special == "value-shared-with-earlier-expansion" {
+		forms = append(forms, sx.Call("set", sx.QY("xp-shared"), sx.Call("gensym")))
+		forms = append(forms, sx.Call("defun", sx.Y("xp-shared-symbol"), sx.L(), sx.Y("xp-shared")))
+	}
 	var macroDef *sx.N // for macrolet: the binding entry
 	if !x.host {
 		g := &c18XLisp{r: r, x: x, entryBuilt: x.builder == "template-entry-built", flag: "flag", expr: "expr"}
@@ -581,6 +654,9 @@ func c18ExpansionProgram(w *fw.W, idx, k int) ([]*sx.N, string, map[string]bool,
 
 	// the uses: earlier ones succeed or are swallowed, the last one fails
 	x.uses = r.Range(1, 4)
+	if x.special == "value-shared-with-earlier-expansion" {
+		x.uses = r.Range(2, 4)
+	}
 	ctxs := append([]string(nil), c18XContexts...)
 	fw.Shuffle(r, ctxs)
 	var useForms []*sx.N
@@ -592,7 +668,7 @@ func c18ExpansionProgram(w *fw.W, idx, k int) ([]*sx.N, string, map[string]bool,
 			ctx = "wrap"
 		}
 		flag := int64(1)
-		if !last && r.Bool() {
+		if !last && r.Bool() && !(u == 0 && x.special == "value-shared-with-earlier-expansion") {
 			flag = 0
 		}
 		arg := sx.I(int64(3 + r.Intn(6)))
